@@ -10,6 +10,7 @@ Definition pk (cat pf pn : string) (iuse use : option string) (b d r p : dfile) 
         (match iuse with Some s => Some (bs s) | None => None end) None
         (match use with Some s => Some (bs s) | None => None end) b d r p.
 Definition no_obs : obs := MkObs RFailed RFailed RFailed RFailed RFailed.
+Definition no_texts : list (option bytes) := [None; None; None; None].
 Definition simple_fs (lines : list string) : pfs :=
   [(bs "/r/p/base", PDir (Some (map bs lines)) None);
    (bs "/r/etc/portage/make.profile", PLink (bs "../../p/base"))].
@@ -25,7 +26,7 @@ Definition witness_ok : case :=
                                                           (FDeps [DGrp (GUse (bs "x")) [at_ "app-misc/d" false [3%N]]]) FNone;
      pk "app-misc" "d-1" "app-misc/d" None None FNone FNone FNone FNone;
      pk "app-misc" "e-1" "app-misc/e" None None FNone FNone FNone FNone]
-    [4%N; 2%N; 0%N; 3%N; 1%N] true true no_obs.
+    [4%N; 2%N; 0%N; 3%N; 1%N] true true (repeat no_texts 5) no_obs.
 
 Example witness_ok_wf : wf witness_ok = true /\ kf witness_ok = 0%N.
 Proof. vm_compute. split; reflexivity. Qed.
@@ -45,7 +46,7 @@ Definition witness_kf1 : case :=
      pk "dev-libs" "b-1" "dev-libs/b" None None FNone FNone FNone FNone;
      pk "dev-libs" "c-1" "dev-libs/c" None None FNone FNone FNone FNone;
      pk "dev-libs" "d-1" "dev-libs/d" None None FNone FNone FNone FNone]
-    [0%N; 1%N; 2%N; 3%N; 4%N] true true no_obs.
+    [0%N; 1%N; 2%N; 3%N; 4%N] true true (repeat no_texts 5) no_obs.
 
 Lemma refuted_1_proof : wf witness_kf1 = true /\ kf witness_kf1 = 1%N /\ spec witness_kf1 (model witness_kf1) = false
   /\ o_stage (model witness_kf1) = ROk [bs "app-misc/top-1"; bs "dev-libs/a-1"; bs "dev-libs/b-1"].
